@@ -227,7 +227,18 @@ def one_path(prog: Program, rep: Report) -> None:
         with_tc, without_tc = (n.body, n.orelse) if pos else (n.orelse, n.body)
         if text == "'time_control' in config" and [unparse(x) for x in with_tc] == ["version = '1'"] and [unparse(x) for x in without_tc] == ["version = '2'"]:
             inferred.append(n)
-    rep.check(rule, fi.qual, "version: explicit key, else inferred from the presence of time_control", "str(config.get('version', '0'))" in srcs and len(inferred) == 1, what_bad=f"{srcs}", what_ok="explicit or inferred", loc=fi.loc())
+    # ... and the inference happens exactly when no version was given (the placeholder '0')
+    pm_ = {id(ch): par for par in ast.walk(fi.node) for ch in ast.iter_child_nodes(par)}
+    guarded_ok = False
+    for n in inferred:
+        par = pm_.get(id(n))
+        if isinstance(par, ast.If) and any(x is n for x in par.body):
+            text, pos = positive_cond(unparse(par.test), True)
+            guarded_ok = guarded_ok or (text == "version == '0'" and pos)
+        elif isinstance(par, ast.If) and any(x is n for x in par.orelse):
+            text, pos = positive_cond(unparse(par.test), True)
+            guarded_ok = guarded_ok or (text == "version == '0'" and not pos)
+    rep.check(rule, fi.qual, "version: explicit key, else inferred from the presence of time_control", "str(config.get('version', '0'))" in srcs and len(inferred) == 1 and guarded_ok, what_bad=f"{srcs}; inference guarded by `version == '0'`: {guarded_ok} - a file that states its version must be read as that version", what_ok="explicit or inferred", loc=fi.loc())
     v2call = [n for n in walk_no_nested(fi.node) if isinstance(n, ast.Expr) and isinstance(n.value, ast.Call) and unparse(n.value.func) == "configure_v2" and [unparse(a) for a in n.value.args] == ["config"]]
     v1call = [n for n in walk_no_nested(fi.node) if isinstance(n, ast.Assign) and unparse(n.targets[0]) == "config" and unparse(n.value) == "configure_v1(config)"]
     rep.check(rule, fi.qual, "v2 normalised in place, v1 translated into the same variable, one return", len(v2call) == 1 and len(v1call) == 1 and len(rets) == 1 and retname == "config", what_bad=f"v2 calls {len(v2call)}, v1 assignments {len(v1call)}, returns {[unparse(r.value) for r in rets if r.value is not None]}", what_ok="return config", loc=fi.loc())
@@ -364,6 +375,14 @@ def v1_translation(prog: Program, rep: Report) -> None:
     without = [o for o in outs if "continuous" not in o["result"].get("release", {})]
     noreltype = _v1_status(rep, rule, v1, v1_outcomes(prog, True, absent=[("particle_release", "release_type")]), "no release_type")
     ok = bool(with_c) and bool(without) and all("continuous" not in o["result"].get("release", {}) and "release_frequency" not in o["result"].get("release", {}) for o in noreltype) and all(o["result"]["release"].get("release_frequency") == Sym(("particle_release", "release_frequency")) for o in with_c) and all("release_frequency" not in o["result"]["release"] for o in without)
+    def says_continuous(o):
+        """the outcome's resolution of the fact `release_type equals 'continuous'` (None if it was never asked)"""
+        for (ln, col, what), val in o["choices"].items():
+            if what.startswith("eq:") and "release_type" in what and "'continuous'" in what:
+                return val
+        return None
+
+    ok = ok and all(says_continuous(o) is True for o in with_c) and all(says_continuous(o) in (False, None) for o in without)
     rep.check(rule, v1.qual, "continuous release only for release_type == 'continuous'", ok, what_bad=f"{len(with_c)} outcome(s) continuous, {len(without)} discrete; without a release_type entry: {[sorted(o['result'].get('release', {})) for o in noreltype][:2]}: a discrete v1 file must stay discrete, a continuous one must carry its frequency", what_ok="continuous iff release_type == 'continuous'", loc=v1.loc())
     # output variables: encoding.datatype <- ncformat, attributes <- the rest
     for kind, sec in (("instance", "instance_variables"), ("particle", "particle_variables")):
